@@ -1,12 +1,12 @@
 CONSTANTS
-  NI = 4
-  NP = 6
+  NI = 2
+  NP = 2
   CapQ = 2
-  MaxK = 3
-  NScopes = 2
-  MaxOps = 12
+  MaxK = 2
+  NScopes = 1
+  MaxOps = 6
   BoundaryRule = "le"
-  Core = FALSE
+  Core = TRUE
 INIT Init
 NEXT Next
 INVARIANT Emit
